@@ -204,6 +204,9 @@ func c03History(c *vc.Ctx, idx int) {
 	b.mineDeposits(2, true)
 	b.mineDeposits(3, false)
 	restartAt := cfg.Blocks/2 + r.Intn(5)
+	if !lh.step() { // the application answers queries only after the first block
+		return
+	}
 	for blk := 0; blk < cfg.Blocks && !lh.failed; blk++ {
 		if !b.refreshGroup() {
 			return
